@@ -11,12 +11,16 @@
   pending queue: `C03_forward_read_exact` (one forward read returns exactly F[off, off+size)) and
   `C03_forward_layout_exact` (whenever the pending value tags are laid out forward without overlap, every read of the
   work loop succeeds and returns exactly its tag's bytes; Lemmas/ExifExact, ExifOne, ExifForward).
-  What is still decided by the search only: that the queue which readIfdHeader builds from a directory *is* that layout's
-  queue for nested directories (IFD pointers, sub-IFDs, maker notes), i.e. the whole-file statement
-  decode(encode(m, L)) = m: see `partial` in the evidence.
+  `C03_flat_tiff_exact` carries this from the file bytes on for a flat directory (value tags only, Lemmas/ExifFlat):
+  DecodeTiff on a file whose first directory holds value tags in a forward, non-overlapping layout makes only successful
+  reads, each equal to F[off, off+size).
+  What is still decided by the search only: the same for nested directories (IFD pointers, sub-IFDs, maker notes) and the
+  last step from exact value bytes to the record, i.e. the whole-file statement decode(encode(m, L)) = m for every
+  layout the generator writes: see `partial` in the evidence.
 -/
 import Imeta.Lemmas.Exif
 import Imeta.Lemmas.ExifForward
+import Imeta.Lemmas.ExifFlat
 namespace Imeta.Exif
 open Imeta
 
@@ -177,5 +181,65 @@ example : let F : Bytes := List.replicate 40 65
   · intro t ht
     simp only [List.drop_zero, List.mem_cons, List.not_mem_nil, or_false] at ht
     rcases ht with rfl | rfl <;> decide
+
+/-- **A flat TIFF in a forward layout is read exactly, from the file bytes on.**  F is the whole file (TIFF header at 0),
+its first directory at `h.firstIfd` holds `cnt ≤ 83` entries; `FlatDir` asks that the directory and its next-IFD pointer
+lie inside the file and the 4 MiB Exif limit and fit one read window, that every entry the reader decodes is a value tag
+(no directory pointer, no sub-IFD list) which is either embedded and gives no parser a reason to read (not ASCII, not
+rational) or lies out of line after the directory, inside the file, the limit and the window, that out-of-line values
+do not overlap, and that a first directory (IFD0) has no successor.  Then whatever DecodeTiff returns, every read it
+made succeeded and returned exactly F[t.off, t.off + t.size) for its tag t, in any entry order (the pending queue sorts
+them) and for both byte orders and both reader kinds. -/
+theorem C03_flat_tiff_exact (tb : Tables) (F : Bytes) (buffered : Bool) (h : Hdr) (cnt : Nat) (r' : R) (e : Option ErrKind)
+    (hsmall : F.length < 2 ^ 32)
+    (hd : FlatDir F { off := 0, base := 0, order := h.order, typ := h.firstIfdType, idx := 0 } h.firstIfd cnt (4 * 1024 * 1024)
+      (if buffered then bufioSize else scratchSize))
+    (hres : decodeTiff tb F buffered h = .ok (r', e)) : Coh F r' ∧ Exact F r' :=
+  decodeTiff_flat tb F buffered h cnt r' e hsmall hd hres
+
+/-! non-vacuity: a 44-byte little-endian TIFF (Orientation embedded, Make "Canon" out of line) meets `FlatDir`, and the
+model run on it records exactly one read, of the Make tag, returning the six bytes at offset 38 -/
+
+def sampleF : Bytes :=
+  [73, 73, 42, 0, 8, 0, 0, 0,
+   2, 0,
+   0x12, 0x01, 3, 0, 1, 0, 0, 0, 6, 0, 0, 0,
+   0x0f, 0x01, 2, 0, 6, 0, 0, 0, 38, 0, 0, 0,
+   0, 0, 0, 0,
+   67, 97, 110, 111, 110, 0]
+def sampleIfd : Ifd := { off := 0, base := 0, order := .little, typ := ifd0, idx := 0 }
+def sT0 : Tag := { off := 6, count := 1, id := 274, typ := 3, ifd := 1, idx := 0, order := .little }
+def sT1 : Tag := { off := 38, count := 6, id := 271, typ := 2, ifd := 1, idx := 0, order := .little }
+theorem sE0 : entryAt sampleIfd ((sampleF.drop (8 + 2)).take (2 * 12)) 0 = .ok (some sT0) := by decide +kernel
+theorem sE1 : entryAt sampleIfd ((sampleF.drop (8 + 2)).take (2 * 12)) 1 = .ok (some sT1) := by decide +kernel
+
+example : FlatDir sampleF sampleIfd 8 2 (4 * 1024 * 1024) bufioSize := by
+  have key : ∀ k t, k < 2 → entryAt sampleIfd ((sampleF.drop (8 + 2)).take (2 * 12)) k = .ok (some t) →
+      (k = 0 ∧ t = sT0) ∨ (k = 1 ∧ t = sT1) := by
+    intro k t hk h
+    have : k = 0 ∨ k = 1 := by omega
+    rcases this with rfl | rfl
+    · rw [sE0] at h; simp only [Outcome.ok.injEq, Option.some.injEq] at h; exact Or.inl ⟨rfl, h.symm⟩
+    · rw [sE1] at h; simp only [Outcome.ok.injEq, Option.some.injEq] at h; exact Or.inr ⟨rfl, h.symm⟩
+  refine ⟨by decide, by decide, by decide +kernel, by decide, by decide, ?_, ?_, fun _ => by decide +kernel⟩
+  · intro k t hk h
+    rcases key k t hk h with ⟨_, rfl⟩ | ⟨_, rfl⟩
+    · refine ⟨by decide, by decide, fun _ => ?_, fun hf => by simp [sT0, Tag.isEmbedded, Tag.size, typeSize, tIfd] at hf⟩
+      unfold Reads; decide
+    · refine ⟨by decide, by decide, fun hf => by simp [sT1, Tag.isEmbedded, Tag.size, typeSize, tASCII] at hf, fun _ => by decide⟩
+  · intro k k' t t' hk hk' hne h h' ho ho'
+    rcases key k t hk h with ⟨rfl, rfl⟩ | ⟨rfl, rfl⟩
+    · simp [sT0, Tag.isEmbedded, Tag.size, typeSize, tIfd] at ho
+    · rcases key k' t' hk' h' with ⟨rfl, rfl⟩ | ⟨rfl, rfl⟩
+      · simp [sT0, Tag.isEmbedded, Tag.size, typeSize, tIfd] at ho'
+      · exact absurd rfl hne
+
+def sampleTb : Tables := { makeOfString := fun _ => none, makeName := fun _ => [], canonModel := fun _ => none, appleModel := fun _ => none }
+def readsOf : Outcome (R × Option ErrKind) → List (Tag × Option Bytes)
+  | .ok (r, _) => r.reads
+  | _ => []
+/-- the model run on the sample file: one read, of the Make tag, with the six bytes "Canon\0" at offset 38 -/
+example : readsOf (decodeTiff sampleTb sampleF true { order := .little, firstIfd := 8, firstIfdType := ifd0, exifLength := 0, imageType := 0 })
+    = [(sT1, some [67, 97, 110, 111, 110, 0])] := by decide +kernel
 
 end Imeta.Exif
